@@ -33,6 +33,7 @@ Side conditions (each shown necessary by a counterexample below):
   position is not inside a fold (there the order of the folded elements is observable).
 -/
 import TrustfallModel.Proofs.SpecMeta
+import TrustfallModel.Proofs.SpecMetaCount
 
 namespace TF.C23
 open TF TF.Engine TF.Spec TF.Transform TF.SpecMeta
@@ -47,6 +48,18 @@ theorem add_filter_sub (env : SpecEnv) (q : Query) (p : Path) (j k : Nat) (op : 
     (h : rows env q = .ok rs) (h' : rows env (addFilter p j k op arg q) = .ok rs') :
     rs'.Sublist rs :=
   rows_sublist_of_asgs (fun as as' => asgs_addFilter_sub env q p j k op arg hp as as') h h'
+
+/-- The rows of the query with an extra count filter `@filter(op, arg)` on the `@fold` edge `j` of
+the node at `p` (inserted at any position `k` among the fold's count directives; `arg` a variable, a
+tag or nothing) are a sublist of the rows of the query — provided the node that carries the fold
+edge is not itself inside a fold.  (Where field `j` is not a `@fold` edge the query is unchanged.)
+No further hypothesis is needed: the extra filter changes neither the folded elements, nor the
+count, nor the count tags/outputs, so the fold edge yields its old assignment or none. -/
+theorem add_count_filter_sub (env : SpecEnv) (q : Query) (p : Path) (j k : Nat) (op : FOp) (arg : QArg)
+    (hp : NoFoldPath p q.root) (rs rs' : List Row)
+    (h : rows env q = .ok rs) (h' : rows env (addCountFilter p j k op arg q) = .ok rs') :
+    rs'.Sublist rs :=
+  rows_sublist_of_asgs (fun as as' => asgs_addCountFilter_sub env q p j k op arg hp as as') h h'
 
 /-! ### raising a recursion depth never removes rows -/
 
@@ -399,6 +412,7 @@ end Example
 end TF.C23
 
 #print axioms TF.C23.add_filter_sub
+#print axioms TF.C23.add_count_filter_sub
 #print axioms TF.C23.recurse_mono
 #print axioms TF.C23.recurse_mono_at
 #print axioms TF.C23.reach_sublist
